@@ -332,7 +332,7 @@ fn step_inner(r: &mut Real, m: &mut Model, op: &Op, cx: &mut Ctx) -> bool {
             let _ = extra_events;
             if live_new.len() != 1 {
                 cx.fail_derail(LIFETIME | CTOR, "events-differ", format!("{}: expected one surviving allocation, allocator traffic {:?}", what, d.events.iter().map(|e| (e.kind, e.addr, e.size, e.align)).collect::<Vec<_>>()));
-                std::mem::forget(h);
+                cap(|| release_real(h)); // nothing may leak into the next execution
                 return false;
             }
             let b = live_new[0];
